@@ -275,7 +275,7 @@ func runHarness(cfg *Config, ld *Loaded, h *Harness, known []*Finding) (res *Har
 	case "cvc5":
 		kind = SolverCVC5
 	}
-	solver, err := StartSolver(kind)
+	solver, err := StartSolverTO(kind, h.FeasTO)
 	if err != nil {
 		res.Errors = append(res.Errors, "cannot start solver: "+err.Error())
 		return
